@@ -1538,6 +1538,11 @@ func (d *DotGit) walkReferencesTree(refs *[]*plumbing.Reference, relPath []strin
 			// a race happened, and our file is gone now
 			continue
 		}
+		if errors.Is(err, ErrEmptyRefFile) {
+			// The file is being created, or is what a refused update left
+			// behind: the value, if there is one, is in packed-refs.
+			continue
+		}
 		if err != nil {
 			return err
 		}
